@@ -67,7 +67,7 @@ SIG_SIM_LATE = {"backend": "SimulatorBackend.fetch_status_results",
                 "event": "report_processed_in_stop_window_delivered_after_same_iteration_resume"}
 
 ST = {"InProgress": "InProgress", "Completed": "Completed", "Failed": "Failed", "Paused": "Paused",
-      "Stopped": "Stopped", "Stopping": "InProgress"}
+      "Stopped": "Stopped", "Stopping": "Stopped"}   # "stopping" (delayed stop) is hidden like "stopped": the model's StopMark
 
 
 # ----------------------------------------------------------------------------------------------
@@ -170,7 +170,7 @@ def as_dicts(reps):
 # ----------------------------------------------------------------------------------------------
 # A. raw operation sequences on the real TrialBackend (unit-step + sequence correspondence)
 # ----------------------------------------------------------------------------------------------
-def gen_raw_ops(rng):
+def gen_raw_ops(rng, async_stop=0):
     clock = Clock(rng, ties=rng.choice([0.0, 0.1, 0.4]))
     shuffle = rng.random() < 0.15
     ntr_max = rng.randint(1, 3)
@@ -178,6 +178,8 @@ def gen_raw_ops(rng):
     marks = {}
     for _ in range(rng.randint(4, 28)):
         kinds = ["emit"] * 5 + ["fetch"] * 6 + ["finish", "fail", "pause", "pause", "stop", "resume", "resume", "resume", "half"]
+        if async_stop:      # delayed stops: only start / worker events / polls / stops
+            kinds = ["emit"] * 6 + ["fetch"] * 7 + ["finish", "stop", "stop", "half"]
         if ntr < ntr_max:
             kinds += ["start"] * 4
         k = rng.choice(kinds) if ntr else "start"
@@ -210,7 +212,9 @@ def gen_raw_ops(rng):
         elif k in ("pause", "stop"):
             if bad and tid >= ntr:
                 continue   # pause/stop of an unknown id: outside what the tuner can do; not generated
-            ops.append((k, tid, rng.choice([0, 0, 0, 1, 2])))
+            if async_stop and marks.get(tid):
+                continue
+            ops.append((k, tid, 0 if async_stop else rng.choice([0, 0, 0, 1, 2])))
             marks[tid] = k
         elif k == "resume":
             paused = [i for i in range(ntr) if marks.get(i) == "pause"]
@@ -228,10 +232,12 @@ def gen_raw_ops(rng):
     return ops
 
 
-def run_raw_ops(ops):
+def run_raw_ops(ops, async_stop=0, after_stop=None):
     """Executes the operations on the real TrialBackend code; returns (polls, error)."""
     from fetch_scripted import FakeProcLocalBackend
     b = FakeProcLocalBackend()
+    b.async_stop_polls = async_stop
+    stopped = set()
     polls, err, mops = [], None, []
     for op in ops:
         mops.append(tuple(op))
@@ -254,12 +260,15 @@ def run_raw_ops(ops):
                 st, res = b.fetch_status_results(list(op[1]), mid=[tuple(m) for m in (op[2] if len(op) > 2 else [])])
                 polls.append(([(i, r["v"]) for i, r in res], [(i, st[i][1]) for i in op[1]]))
                 mops[-1] = ("fetch", list(op[1]), [list(m) for m in b.mid_fired])
+                if after_stop is not None:
+                    after_stop.extend((i, r["v"]) for i, r in res if i in stopped)
             elif op[0] == "pause":
                 b.next_late = op[2]
                 b.pause_trial(op[1], None)
             elif op[0] == "stop":
                 b.next_late = op[2]
                 b.stop_trial(op[1], None)
+                stopped.add(op[1])
         except AssertionError as e:
             msg = str(e)
             err = ("ResumeBadId" if "not present" in msg else
@@ -291,12 +300,25 @@ def raw_cases(ctx, replay):
     if replay is not None:
         if replay.get("kind") != "raw":
             return
-        cases = [[tuple(o) for o in replay["ops"]]]
+        cases = [[tuple(o) if isinstance(o, (list, tuple)) else o for o in replay["ops"]]]
     else:
-        cases = [gen_raw_ops(rng) for _ in range(ctx.n(900, 12000))]
+        cases = [[("start", [(1.0, 0), (2.0, 1), (3.0, 2)]), ("emit", 0, 1), ("fetch", [0]), ("stop", 0, 0), ("emit", 0, 1),
+                  ("fetch", [0]), ("emit", 0, 1), ("fetch", [0]), ("fetch", [0]), ("fetch", [0]), "ASYNC"]]
+        for _ in range(ctx.n(900, 12000)):
+            a = 2 if rng.random() < 0.12 else 0
+            cases.append(gen_raw_ops(rng, async_stop=a) + (["ASYNC"] if a else []))
     terms, meta = [], []
     for ops in cases:
-        polls, err, mops = run_raw_ops(ops)
+        asyn = 2 if ops and ops[-1] == "ASYNC" else 0
+        ops = [o for o in ops if o != "ASYNC"]
+        after_stop = []
+        polls, err, mops = run_raw_ops(ops, async_stop=asyn, after_stop=after_stop)
+        ctx.h("raw_delayed_stop", bool(asyn))
+        if after_stop:
+            ctx.violation("property", "generic TrialBackend.fetch_status_results: results %s of a trial were returned after stop_trial "
+                          "(the job was still 'stopping')" % after_stop[:4],
+                          case=dict(kind="raw", ops=[list(o) for o in ops] + (["ASYNC"] if asyn else [])),
+                          signature=dict(backend="generic TrialBackend.fetch_status_results", event="results_returned_after_stop_trial"))
         nres = sum(len(b) for b, _ in polls)
         resumed = any(o[0] == "resume" for o in ops)
         ctx.count(("raw", ops), nontrivial=bool(nres >= 2 and (resumed or any(o[0] in ("pause", "stop") for o in ops))))
@@ -306,7 +328,7 @@ def raw_cases(ctx, replay):
             ctx.h("raw_op", o[0])
         ctx.h("raw_fetch_with_worker_between_reads", sum(1 for o in mops if o[0] == "fetch" and len(o) > 2 and o[2]))
         terms.append(seq_term(GENERIC_KIND[0], mops[:len(mops) if err is None else len(mops)], [], polls, err))
-        meta.append(dict(kind="raw", ops=[list(o) for o in ops], impl_polls=polls, impl_error=err))
+        meta.append(dict(kind="raw", ops=[list(o) for o in ops] + (["ASYNC"] if asyn else []), impl_polls=polls, impl_error=err))
     if terms:
         ctx.sample(dict(kind="raw TrialBackend operations", ops=meta[0]["ops"][:8], impl_polls=meta[0]["impl_polls"][:4]))
         for i in ctx.coq_bad_cases("raw", IMPORTS, PRELUDE, "chk_seq", terms, shard=125):
@@ -327,6 +349,7 @@ class Policy:
         self.pos = dict(suggest=0, decide=0, world=0)
         self.clock = Clock(rng or random.Random(0), ties=self.p.get("ties", 0.0))
         self.backend = None
+        self.n_polls = 10 ** 9
         self.paused = []          # trials paused and not yet resumed (scheduler's own knowledge)
         self.nruns = {}
         self.sim = self.p.get("sim", False)
@@ -394,8 +417,22 @@ class Policy:
         return d[0], d[1]
 
     def world(self, backend):
+        if backend.npolls > self.n_polls + 80:
+            raise RuntimeError("the tuning loop does not end")
+        waiting = self.p.get("wait") and not self.sim and backend.npolls >= self.n_polls
         if self.script is not None:
-            w = self._take("world") or []
+            w = self._take("world")
+            if w is None:
+                # replay past the recorded script while the tuner waits for its trials: let them end
+                w = [["finish", tid, 0] for tid, wk in backend.w.items() if wk.proc == "running"] if waiting else []
+        elif waiting:
+            # wait_trial_completion_when_stopping: the stop criterion is met, the tuner waits for the running trials;
+            # every worker ends soon -- before a poll reads, or right after it (before a busy query)
+            w = []
+            for tid, wk in backend.w.items():
+                if wk.proc == "running":
+                    x = self.rng.random()
+                    w.append(["finish", tid, 0] if x < 0.4 else ["post_finish", tid, 0] if x < 0.75 else ["emit", tid, 1])
         else:
             w = []
             for tid, wk in backend.w.items():
@@ -453,6 +490,7 @@ def run_tuner_generic(case):
     b = FakeProcLocalBackend()
     b.world_fn = pol.world
     pol.backend = b
+    pol.n_polls = case["n_polls"]
     sch = ScriptedScheduler(pol, b)
     comp = case["params"].get("composer", "no_composer")
     composer = None if comp == "no_composer" else ScriptedComposer(comp)
@@ -461,7 +499,8 @@ def run_tuner_generic(case):
     tuner = Tuner(trial_backend=b, scheduler=sch, stop_criterion=lambda status: b.npolls >= case["n_polls"],
                   n_workers=case["W"], sleep_time=0, callbacks=[cb], tuner_name="c02", suffix_tuner_name=False,
                   save_tuner=False, max_failures=10 ** 6,
-                  start_jobs_without_delay=case["params"].get("sjwd", True))
+                  start_jobs_without_delay=case["params"].get("sjwd", True),
+                  wait_trial_completion_when_stopping=bool(case["params"].get("wait", False)))
     crash = None
     with quiet():
         try:
@@ -507,7 +546,7 @@ def run_tuner_generic(case):
     evs = [tuple(e) for e in evs]
     rows = [(r["trial_id"], r["v"]) for r in cb.results]
     return dict(evs=evs, out=out, polls=polls, reported=reported, timeline=timeline, rows=rows, crash=crash,
-                log_rows=log_rows_of(cb), answers=list(composer_answers(cb)),
+                log_rows=log_rows_of(cb), answers=list(composer_answers(cb)), wait=bool(case["params"].get("wait", False)),
                 window={k: list(v) for k, v in b.late_emitted.items()}, script=pol.rec,
                 mids=sum(len(e[3]) for e in evs if e[0] == "poll" and len(e) > 3))
 
@@ -646,6 +685,10 @@ def check_delivery(obs):
             settle()
         if ev[0] == "exit_ok":
             exited.append((ev[1], seg[ev[1]]))
+        elif ev[0] == "end" and obs.get("wait"):
+            # wait_trial_completion_when_stopping=True: tuning only ends once every running trial is done, so a run
+            # whose worker has exited before the end was "completed on its own before tuning ended"
+            must_complete.update(exited)
         elif ev[0] == "poll":
             # the worker of these runs had written everything and exited before this poll started
             must_complete.update(exited)
@@ -688,7 +731,7 @@ def check_delivery(obs):
 
 def gen_tuner_case(rng, sim):
     lates = rng.choice([[0], [0], [0, 0, 1], [0, 1, 2]])
-    prm = dict(p_none=rng.choice([0.0, 0.0, 0.05, 0.15]), composer=rng.choice(["no_composer", "no_composer", "dict_always", "none_always", "none_odd", "none_until_completion"]),
+    prm = dict(wait=(not sim) and rng.random() < 0.25, p_none=rng.choice([0.0, 0.0, 0.05, 0.15]), composer=rng.choice(["no_composer", "no_composer", "dict_always", "none_always", "none_odd", "none_until_completion"]),
                sjwd=True if sim else rng.random() < 0.7, p_pause=rng.choice([0.1, 0.25, 0.4]), p_stop=rng.choice([0.05, 0.12, 0.25]),
                p_resume=rng.choice([0.2, 0.5, 0.9]), lates=lates, ties=rng.choice([0.0, 0.0, 0.2]))
     if sim:
@@ -730,6 +773,7 @@ def tuner_cases(ctx, replay, sim):
             ctx.h(kind + "_worker_acts_between_reads", min(obs.get("mids", 0), 5))
             ctx.h(kind + "_start_jobs_without_delay", case["params"].get("sjwd", True))
         ctx.h(kind + "_results_log_composer", case["params"].get("composer", "no_composer"))
+        ctx.h(kind + "_wait_trial_completion_when_stopping", bool(case["params"].get("wait", False)))
         sg = obs["script"]["suggest"]
         ctx.h(kind + "_space_exhausted", "no" if ["none"] not in sg else
               "after_a_start_in_the_same_call" if len(sg) >= 2 and sg[-2][0] != "none" else "yes")
